@@ -160,10 +160,10 @@ def method_set(tier):
     """returns (types to declare, methods)"""
     prims = A.prims()
     structs = A.special_structs() + A.struct_universe(tier)
-    decl_enums = [A.EN, A.ENN]
+    decl_enums = [A.EN, A.ENN, A.EN1]
     T = []
     # ---- parameter shapes
-    pshapes = list(prims) + [A.EN, A.ENN] + [s for s in structs if s.in_param]
+    pshapes = list(prims) + [A.EN, A.ENN, A.EN1] + [s for s in structs if s.in_param]
     pshapes += [A.OpaqueRef(), A.OpaqueRef(mut=True), A.OpaqueRef(optional=True), A.OpaqueRef(mut=True, optional=True)]
     for p in prims[:13]:
         pshapes += [A.Slice(p, "ref"), A.Slice(p, "mut"), A.Slice(p, "box")]
@@ -210,6 +210,9 @@ def method_set(tier):
             if isinstance(err, A.OpaqueBox) and tier == "quick" and not isinstance(ok, (A.Unit, A.Prim)):
                 continue
             rshapes.append(A.Result(ok, err))
+    # single-variant enum payloads next to arms narrower than, as wide as and wider than the enum
+    rshapes += [A.EN1, A.NullableRet(A.EN1), A.Result(A.Unit(), A.EN1), A.Result(A.Prim("u8"), A.EN1), A.Result(A.EN1, A.Prim("u8")), A.Result(A.EN1, A.Unit()),
+                A.Result(A.Prim("i64"), A.EN1)]
     for t in rshapes:
         add("R", [], t)
     # a parameter and a return value together (register / sret interplay)
